@@ -22,7 +22,7 @@ MIN = {"quick": {"slice:has_interaction(u,v,t)": 50000, "slice:type": 3000, "sli
 ALLEN = ("before", "meets", "overlaps", "starts", "during", "finishes", "equals", "finished-by", "contains",
          "started-by", "overlapped-by", "met-by", "after")
 REQUIRED_CELLS = {t: tuple("allen:" + a for a in ALLEN) + ("class:DynGraph", "class:DynDiGraph", "form:dn.",
-                                                           "form:single-instant", "window:misses-everything")
+                                                           "form:single-instant", "window:misses-everything", "src:long-timeline")
                   for t in ("quick", "thorough")}
 
 
@@ -160,6 +160,9 @@ def one_graph(ctx, dn, G, m, windows):
     if windows:
         w = windows[0]
         guarded(ctx, "slice:independent", independent, ctx, dn, G, m, w[0], w[1] if w[1] is not None else w[0])
+        ids_ = m.ids()
+        # a window strictly containing every run (runs copied whole are the ones that could be shared)
+        guarded(ctx, "slice:independent", independent, ctx, dn, G, m, ids_[0] - 1, ids_[-1] + 1)
     # invalid window
     ids = m.ids()
     a = rng.choice(ids)
@@ -198,10 +201,15 @@ def run(ctx, dn):
     k = 0
     while ctx.time_left() > 1:
         directed = rng.random() < 0.5
-        prog, fam = gen.random_program(rng, lambda: Model(directed, True), directed=directed)
+        if k % 12 == 5:
+            prog, fam = gen.long_timeline_program(rng, directed), dict(long_timeline=True)
+            ctx.cell("src:long-timeline")
+        else:
+            prog, fam = gen.random_program(rng, lambda: Model(directed, True), directed=directed)
         G, m, ok = driver.build_accepted(dn, prog, directed)
         if not ok or not m.nontrivial():
             ctx.skip("graph not built")
+            k += 1
             continue
         ctx.cases += 1
         ctx.case = dict(workload="ALLEN", directed=directed, program=prog, families=fam)
